@@ -27,6 +27,7 @@ SCHEMA = {
     },
     "orphans_heat": ["13:000002"],
 }
+UFC = "02:044328"
 V = {1: "07D0", 2: "0834"}  # 20.00, 21.00
 VAL = {1: 20.0, 2: 21.0}
 SUBSETS = (("00", "01"), ("01", "0B"), ("00", "01", "0B"))
@@ -75,6 +76,9 @@ def letters() -> dict:
         for d in ("13:000001", "13:000002"):
             L[f"RLY({d[-1]},{v})"] = (f"RP --- {d} {GWY} --:------ 0008 002 00{'C8' if v == 1 else '00'}", {(d, "relay_demand"): 1.0 if v == 1 else 0.0})
             L[f"ACT({d[-1]},{v})"] = (f" I --- {d} --:------ {d} 3EF0 003 00{'C8' if v == 1 else '00'}FF", {(d, "actuator_state.modulation_level"): 1.0 if v == 1 else 0.0})
+        # an underfloor-heating controller's own demands (not part of the history groups: expiry only)
+        L[f"UFC_HD({v})"] = (f" I --- {UFC} --:------ {UFC} 3150 002 FC{'64' if v == 1 else '32'}", {(UFC, "heat_demand"): 0.5 if v == 1 else 0.25})
+        L[f"UFC_RD({v})"] = (f" I --- {UFC} --:------ {UFC} 0008 002 FC{'64' if v == 1 else '32'}", {(UFC, "relay_demand"): 0.5 if v == 1 else 0.25})
         for k, z in enumerate(ZONES[:2]):
             d = f"04:00000{k + 1}"
             L[f"TRV_T({z},{v})"] = (f" I --- {d} --:------ {d} 30C9 003 00{temp_hex(v, z)}", {(d, "temperature"): temp_val(v, z)})
@@ -279,6 +283,8 @@ ATTR_EXPIRY = [
     ("RLY(1,1)", ("13:000001", "relay_demand")),
     ("ACT(2,1)", ("13:000002", "actuator_state.modulation_level")),
     ("TRV_T(00,2)", ("04:000001", "temperature")),
+    ("UFC_HD(1)", (UFC, "heat_demand")),
+    ("UFC_RD(2)", (UFC, "relay_demand")),
 ]
 
 
